@@ -98,6 +98,7 @@ class Context(object):
 
 
 _IF_CACHE = {}
+from .paths import REPO_SRC as _REPO_SRC
 
 
 def _effect_free_ifs(filename):
@@ -140,7 +141,7 @@ def _in_effect_free_if():
     depth = 0
     while f is not None and depth < 12:
         fn = f.f_code.co_filename
-        if fn.startswith("/repo/src"):
+        if fn.startswith(_REPO_SRC):
             ln = f.f_lineno
             for a, b in _effect_free_ifs(fn):
                 if a <= ln <= b:
